@@ -258,6 +258,8 @@ def gen_inline(rng, cfg, depth, budget):
                 if rng.random() < 0.4:
                     st.append('margin-%s:%dpx' % (side, rng.choice([1, 3, 7, 15])))
                     cfg['has_deco_' + side] = True
+            right = sum(int(x.split(':')[1].split('px')[0]) for x in st if '-right' in x)
+            cfg['right_max'] = max(cfg.get('right_max', 0), right)
             if cfg['mixed'] and rng.random() < 0.5:
                 st.append('font-size:%dpx' % rng.choice(SIZES))
             if depth >= 1:
@@ -318,7 +320,8 @@ def gen_render_case(rng, idx):
     return dict(html=html, toks=toks, fs=fs, ws=ws, ow=ow, wb=wb, ta=ta, rtl=rtl, width=width, indent=indent, flt=flt,
                 mixed=cfg['mixed'], shy=cfg['shy'], spans=cfg['p_span'] > 0,
                 leftdeco=cfg.get('has_deco_left', False), rightdeco=cfg.get('has_deco_right', False),
-                nested=cfg.get('has_nested', False), ib_in_span=cfg.get('has_ib_in_span', False))
+                nested=cfg.get('has_nested', False), ib_in_span=cfg.get('has_ib_in_span', False),
+                right_max=cfg.get('right_max', 0))
 
 
 def source_text(toks, ws):
@@ -456,7 +459,7 @@ def judge_render(case, paras):
             neg_avail = True
         width = ln['w']
         units = first_break_x(ln) is not None
-        tcontent = t.strip(' ')
+        tcontent = t.strip(' \n')
         # (a) no overflow unless one unbreakable unit (one character when words may be broken)
         hang = 0
         if not collapse:
@@ -494,7 +497,7 @@ def judge_render(case, paras):
             if sep == 'space':
                 sizes = [it['fs'] for it in ln['items'] if it['kind'] == 'text'][-1:] + \
                         [it['fs'] for it in nl_['items'] if it['kind'] == 'text'][:1]
-                gap = min(sizes) if sizes else 0
+                gap = max(sizes) if sizes else 0      # the collapsed space belonged to one of the two boxes
                 if not collapse:
                     gap = 0      # the preserved space is already on this line
             w_used = width
@@ -576,24 +579,77 @@ def judge_render(case, paras):
 
 
 
-def classify_render(case, clause, detail):
-    """signature of a known mechanism (None: unexplained)"""
-    can_break = case['wb'] == 'break-all' or case['ow'] in ('anywhere', 'break-word')
+def classify_render(case, paras, clause, detail):
+    """signature of the open finding whose mechanism applies to the offending line (None: unexplained).
+    Each test looks at the features of the offending line(s) that make the mechanism apply, not at the clause alone."""
+    import re
     fit_clauses = ('no-overflow-unless-one-unit', 'greedy', 'line-inside-block', 'text-align', 'justify-fills',
                    'line-beside-float')
-    if case['shy']:
+    m = re.match(r'line (\d+)', detail)
+    lines = paras[0]['lines'] if len(paras) == 1 else []
+    i = int(m.group(1)) if m else None
+    here = [lines[j] for j in (i, i + 1) if i is not None and j < len(lines)] if i is not None else []
+
+    def txt(ln):
+        return ''.join(it['text'] or '' for it in ln['items'] if it['kind'] == 'text')
+    # F112-F116 (soft hyphens): the offending line, or the one after it, holds a soft hyphen / an inserted hyphen
+    if case['shy'] and (clause in ('lines-cover-text', 'paragraph-rendered-once') or
+                        any(SHY in txt(ln) or HY in txt(ln) for ln in here)):
         return 'render-soft-hyphen-paragraph'
     if clause == 'space-dropped-inside-line':
         return 'text-box-trailing-space-dropped-mid-line'
-    if case['leftdeco'] and clause in fit_clauses:
-        return 'inline-start-spacing-ignored-in-line-fitting'
-    if can_break and clause in fit_clauses and (case['indent'] > 0 or case['spans'] or OBJ in source_text(case['toks'], 'normal')):
-        # some text box met a negative available width (after an indent, a wide inline-block, paddings)
-        return 'sfl-negative-width-no-wrap-when-breaking-inside-words'
-    if case['rightdeco'] and clause == 'greedy':
-        return 'inline-end-spacing-subtracted-on-every-line-of-last-child'
-    if (case['nested'] or case['ib_in_span']) and clause in fit_clauses + ('extents-add-up',):
-        return 'nested-inline-boxes-line-breaking'
+    if clause not in fit_clauses + ('extents-add-up',) or not here:
+        return None
+    avail = paras[0]['w']
+    ln = here[0]
+    # F117: an inline box with left margin/border/padding starts on the offending line (or opens the next one,
+    # which is then pushed down as a whole) ...
+    def start_sp(it):       # spacing on the start side of the inline box (right side in rtl)
+        return (it['mr'] + it['br'] + it['pr']) if case['rtl'] else (it['ml'] + it['bl'] + it['pl'])
+    starts = [it for l_ in here for it in l_['items'] if it['kind'] == 'inline' and start_sp(it) > 0]
+    if starts and clause in fit_clauses:
+        left_here = sum(start_sp(it) for it in ln['items'] if it['kind'] == 'inline')
+        # ... and for an overflow the excess is at most that uncounted spacing
+        hang = 0
+        if case['ws'] in ('pre', 'pre-wrap'):
+            tbs = [it for it in ln['items'] if it['kind'] == 'text' and it['text']]
+            if tbs:
+                tt = tbs[-1]['text'].rstrip('\n')
+                hang = (len(tt) - len(tt.rstrip(' '))) * tbs[-1]['fs']
+        if clause != 'no-overflow-unless-one-unit' or ln['w'] - left_here - hang <= avail + EPS:
+            return 'inline-start-spacing-ignored-in-line-fitting'
+    # F118: the offending line ends inside an inline box that goes on (its end spacing is subtracted on every line
+    # of its last child), and the room that was left is smaller than the end spacings of the paragraph's spans
+    if clause == 'greedy' and len(here) == 2 and case.get('right_max', 0) > 0:
+        leaf = [it for it in ln['items'] if it['kind'] in ('text', 'atomic')]
+        nxt_first = here[1]['items'][0] if here[1]['items'] else None
+        if leaf and leaf[-1]['depth'] >= 1 and nxt_first is not None and nxt_first['kind'] == 'inline':
+            mm = re.search(r'\(([-0-9.]+) of ([-0-9.]+)\): next unit of extent ([-0-9.]+)', detail)
+            if mm:
+                used, av, ext = float(mm.group(1)), float(mm.group(2)), float(mm.group(3))
+                if used + ext + 2 * case['right_max'] + case['fs'] > av:
+                    return 'inline-end-spacing-subtracted-on-every-line-of-last-child'
+    # white-space: pre-wrap: an inline box that does not fit entirely after the text of the line is moved to the next
+    # line as a whole (the offending line is followed by a line that opens with an inline box)
+    if clause == 'greedy' and case['ws'] == 'pre-wrap' and len(here) == 2 and here[1]['items'] \
+            and here[1]['items'][0]['kind'] == 'inline':
+        return 'pre-wrap-inline-box-moved-whole-to-next-line'
+    # a float before the paragraph: the line is re-aligned with the width available BELOW the float because the width
+    # it is given for that test still counts its trailing space (it fits beside the float only without that space)
+    if clause == 'line-beside-float' and case['flt'] is not None:
+        mm = re.search(r'x=([-0-9.]+) w=([-0-9.]+) free ([-0-9.]+)\.\.([-0-9.]+)', detail)
+        if mm:
+            x, w, lo, hi = (float(g) for g in mm.groups())
+            over = max(x + w - hi, lo - x)
+            sizes = [it['fs'] for it in ln['items'] if it['kind'] == 'text']
+            if sizes and over <= case['flt']['w'] + EPS and w <= hi - lo + EPS < w + max(sizes) + 2 * EPS:
+                return 'float-line-realigned-with-width-including-trailing-space'
+    # F120: inline boxes nested in inline boxes, or inline-blocks inside inline boxes, on the offending lines
+    # (the box that opens the next line may hold them a few lines further down)
+    for l_ in lines[i:i + 8]:
+        for it in l_['items']:
+            if it['depth'] >= 1 and it['kind'] in ('inline', 'atomic'):
+                return 'nested-inline-boxes-line-breaking'
     return None
 
 # ------------------------------------------------------------------------------------------------ check
@@ -616,13 +672,13 @@ def check(run):
         'through the stacking clause of the render monitor']
     import time
     t0 = time.time()
-    stream_raw(run, rng, 4000 if thorough else 600)
+    stream_raw(run, rng, 4000 if thorough else 800)
     t1 = time.time()
-    stream_sfl(run, rng, 15000 if thorough else 1800)
+    stream_sfl(run, rng, 15000 if thorough else 2400)
     t2 = time.time()
-    stream_align(run, rng, 4000 if thorough else 400)
+    stream_align(run, rng, 4000 if thorough else 500)
     t3 = time.time()
-    stream_render(run, rng, 6000 if thorough else 500)
+    stream_render(run, rng, 6000 if thorough else 900)
     t4 = time.time()
     run.stream_info('pango-G', wall_s=round(t1 - t0, 1))
     run.stream_info('sfl-direct', wall_s=round(t2 - t1, 1))
@@ -677,8 +733,6 @@ def classify_sfl(c, o, mask):
     can_break = wb == 'break-all' or (c['ils'] and (ow == 'anywhere' or (ow == 'break-word' and not c['mini'])))
     if not wrap or c['mw'] is None:
         return None
-    if can_break and trunc1024(c['mw']) < 0:
-        return 'sfl-negative-width-no-wrap-when-breaking-inside-words'
     ltext = o[0]
     has_shy = SHY in text and c['hy'] == 'manual'
     if wb == 'break-all' and ow == 'normal' and not ltext.endswith(HY) and mask & 0b11110 == 2:
@@ -779,7 +833,8 @@ def stream_render(run, rng, n):
             continue
         if st == 'exc':
             sig = 'crash:%s' % (o['site'],)
-            if c['shy'] and o['type'] == 'AssertionError' and o['site'] and o['site'][2] == 'split_text_box':
+            if c['shy'] and c['ws'] in ('pre', 'pre-wrap', 'pre-line') and o['type'] in ('AssertionError', 'UnicodeDecodeError') \
+                    and o['site'] and o['site'][2] == 'split_text_box':
                 sig = 'crash-soft-hyphen-overflow-before-newline'
                 known[sig] = known.get(sig, 0) + 1
             run.fail('render raised %s at %s' % (o['type'], o['site']),
@@ -789,7 +844,7 @@ def stream_render(run, rng, n):
         bad = judge_render(c, o)
         seen = set()
         for clause, detail in bad:
-            sig = classify_render(c, clause, detail)
+            sig = classify_render(c, o, clause, detail)
             if (clause, sig) in seen:
                 continue
             seen.add((clause, sig))
